@@ -150,6 +150,12 @@ fn maybe_replace_delimiter<'a>(text: &'a [u8], opt: &Opt) -> std::borrow::Cow<'a
         std::borrow::Cow::Borrowed(text)
     } else if let Some(new_delimiter) = opt.replace_delimiter.as_ref() {
         if let Some(re_bag) = &opt.regex_bag {
+            if opt.compress_delimiter {
+                // compress_delimiter_with_regex already rewrote every run of
+                // matches to the new delimiter: replacing again would expand
+                // a new delimiter that itself matches the regex
+                return std::borrow::Cow::Borrowed(text);
+            }
             re_bag
                 .normal
                 .replace_all(text, regex::bytes::NoExpand(new_delimiter))
